@@ -98,6 +98,11 @@ def configs(tier, seed):
         cc = dict(c)
         cc.update(name=c["name"] + "-segmented", seg_size=11, records=2, min_len=1, max_len=3, stream_segments=True)
         out.append(cc)
+        if len(seen) <= 3 or tier == "thorough":
+            # the same with initial sequence numbers just below 2^32: both directions wrap inside the handshake / the data
+            cw = dict(cc)
+            cw.update(name=c["name"] + "-segmented-seq-wrap", isn_c=(1 << 32) - 70, isn_s=(1 << 32) - 45)
+            out.append(cw)
     # ---- one record from an arbitrary cipher state, one configuration per behaviour class
     for cls, members in sorted(by_class.items()):
         code, name = members[0] if tier == "quick" else rnd.choice(members)
@@ -125,7 +130,7 @@ def scenario_outputs(cfg, mods, src):
     from tlv.harness import pipeline as P
     from tlv.oracle import scenario as SC
     items, keylog, meta = SC.build(cfg, src)
-    ep = P.Endpoint(ipv=cfg.get("ipv", 4))
+    ep = P.Endpoint(ipv=cfg.get("ipv", 4), isn_c=cfg.get("isn_c", 1000), isn_s=cfg.get("isn_s", 5000))
     frames = P.tcp_frames(ep, items, seg_size=cfg.get("seg_size"), group=P.stream_groups(items) if cfg.get("stream_segments") else None)
     out, sessions = P.run_tls(mods, frames, P.keylog_objects(mods, keylog), exp_meta=cfg.get("exp_meta", False))
     return items, out, ep, sessions
@@ -268,7 +273,7 @@ def concrete(cfg, inp, args=()):
     from tlv.oracle import scenario as SC
     src = SC.ConcreteSrc(inp)
     items, keylog, meta = SC.build(cfg, src)
-    ep = P.Endpoint(ipv=cfg.get("ipv", 4))
+    ep = P.Endpoint(ipv=cfg.get("ipv", 4), isn_c=cfg.get("isn_c", 1000), isn_s=cfg.get("isn_s", 5000))
     pk = e2e.concrete_frames(ep, items, seg_size=cfg.get("seg_size"), group=P.stream_groups(items) if cfg.get("stream_segments") else None)
     res = e2e.run_tlexport(pk, e2e.keylog_text(keylog), args=args)
     problems = list(res["problems"])
